@@ -7,7 +7,7 @@ delimiting quote (escaped)} [thorough: + value containing the other quote charac
 line order of <=2 lines and both key orders of 3 lines, the same key set twice], plus Lmod's failure answer `_mlstatus = False`; with and without Lmod's own
 dressing (';' line ends and the `_mlstatus = True` trailer); one and two requested modules.
 Caller environments: every subset of {KEEP=1, PATH=/usr/bin:/bin, OVERRIDE=old} on top of the fixed variables the harness
-process needs.  The task prints its own environment (`python -c "import os,json;print(json.dumps(dict(os.environ)))"`,
+process needs.  The task prints its own environment (`python -S -c "import os,json;print(json.dumps(dict(os.environ)))"`,
 list-valued executable with an absolute interpreter path), run for real through Submitter(worker="debug"); argv, the
 `env=` keyword and os.environ are recorded by a call-through wrapper at `pydra.environments.base.execute`.
 
